@@ -1,7 +1,7 @@
 """Shared driver for SectionItems operation sequences (C13, C15): runs the real class and builds model requests."""
 import itertools
 
-NAMES = ["A", "a", "", "A:1", "B", "1"]
+NAMES = ["A", "a", "", " ", "A:1", "B", "1"]
 KEYS = ["A", "a", "A:1", "A:2", "UNKNOWN", "B", "1", 0, 1, -1, 5]
 
 
@@ -124,5 +124,5 @@ def sequences(run, quick_len, thorough_len, n_random_quick, n_random_thorough, m
     for _ in range(nrand):
         n = run.rng.randint(L + 1, maxlen)
         # bias towards growth so that long sequences keep non-trivial sections
-        seq = [run.rng.choice(ops[:12]) if run.rng.random() < 0.45 else run.rng.choice(ops) for _ in range(n)]
+        seq = [run.rng.choice(ops[:13]) if run.rng.random() < 0.45 else run.rng.choice(ops) for _ in range(n)]
         yield with_values(seq), "random"
